@@ -424,7 +424,25 @@ func runCut(cc cutCase, seed int64) cutOutcome {
 				delivered[q.ID] = true
 			}
 		}
-		ex, _, _ := r.Ledger.Snapshot()
+		ex, _, overlaps := r.Ledger.Snapshot()
+		if m.sp {
+			// C05 while a connection goes down: the requests already received
+			// are still executed one at a time and in the order sent
+			if len(overlaps) > 0 {
+				bad("C05", "C05/cut/overlap", fmt.Sprintf("pipelining server ran two handlers of one connection at the same time while the connection ended (%d overlaps, first at request %s)", len(overlaps), overlaps[0]))
+			}
+			last := int64(-1)
+			for _, e := range ex {
+				if !e.Known || e.Spec.Caller != 1 {
+					continue
+				}
+				if int64(e.Spec.Counter) < last {
+					bad("C05", "C05/cut/exec-order", fmt.Sprintf("pipelining server executed request %d after request %d while the connection ended", e.Spec.Counter, last))
+					break
+				}
+				last = int64(e.Spec.Counter)
+			}
+		}
 		cnt := map[string]int{}
 		for _, e := range ex {
 			if !e.Known {
